@@ -373,15 +373,30 @@ def _create_isotopomer_reactions(
         )
         new_rate_name = rate_name + "__" + rate_suffix
 
-        replacements = dict(zip(base_substrates, new_substrates, strict=True)) | dict(
-            zip(base_products, new_products, strict=True)
-        )
+        # Every occurrence of a compound in the arguments stands for one of its
+        # instances in the reaction: A + A -> B pairs two (possibly different)
+        # isotopomers of A
+        instances: dict[str, list[str]] = {}
+        for base, new in zip(
+            [*base_substrates, *base_products],
+            [*new_substrates, *new_products],
+            strict=True,
+        ):
+            instances.setdefault(base, []).append(new)
+        new_args = []
+        for k in args:
+            if (queue := instances.get(k)) is None:
+                new_args.append(k)
+            elif len(queue) > 1:
+                new_args.append(queue.pop(0))
+            else:
+                new_args.append(queue[0])
 
         model.add_reaction(
             name=new_rate_name,
             fn=function,
             stoichiometry=new_stoichiometry,
-            args=[replacements.get(k, k) for k in args],
+            args=new_args,
         )
 
 
